@@ -63,6 +63,9 @@ impl<'a> World<'a> {
             }
             // every model entry is on the medium
             for (n, node) in &md.entries {
+                if self.relax.contains(&(vol, id, *n)) {
+                    continue;
+                }
                 let e = td.ents.iter().find(|e| &e.name == n);
                 let nstr = fatspec::name_str(n);
                 match (node, e) {
@@ -119,15 +122,22 @@ impl<'a> World<'a> {
                 if e.is_dot() || (e.is_vol() && !e.is_dir()) {
                     continue;
                 }
-                if !md.entries.contains_key(&e.name) {
+                if !md.entries.contains_key(&e.name) && !self.relax.contains(&(vol, id, e.name)) {
                     found.push(("unexpected-entry", String::new(), format!("/{}/{}", pstr, fatspec::name_str(&e.name))));
                 }
+            }
+        }
+        for p in &tree.problems {
+            if p.kind == "duplicate-name" {
+                found.push(("duplicate-name", String::new(), p.detail.clone()));
             }
         }
         for (o, d, det) in found {
             self.violate("C02", &format!("remount/{}", o), &d, det);
         }
-        self.fresh_mount_compare(vol, &tree);
+        if !self.faulty {
+            self.fresh_mount_compare(vol, &tree);
+        }
     }
 
     /// Mount the raw medium with a brand-new VolumeManager and walk it through the public API;
